@@ -2,7 +2,7 @@
    Theorems only.  Model: Model/Ty.v (subck = subclasscheck with fuel).  Spec: Spec/Denot.v. *)
 From Coq Require Import ZArith List Bool Arith.
 Import ListNotations.
-From OvldV Require Import Model.Order Model.Ty Model.TyDom Model.Codec Spec.Denot Proofs.TyEq Proofs.TyMono Proofs.TySub.
+From OvldV Require Import Model.Order Model.Ty Model.TyDom Model.Codec Spec.Denot Proofs.TyEq Proofs.TyMono Proofs.TySub Proofs.TyTotal.
 
 Definition Refl (sub : nat -> nat -> bool) := forall c, sub c c = true.
 Definition Antisym (sub : nat -> nat -> bool) := forall c d, sub c d = true -> sub d c = true -> c = d.
@@ -14,6 +14,10 @@ Theorem C13_denot : forall sub hasm chk fresh, Refl sub ->
   forall n T c b, subck sub hasm chk fresh n (Cls c) T = Some b -> b = denot sub hasm chk T c.
 Proof. exact subck_denot. Qed.
 Print Assumptions C13_denot.
+
+Theorem C13_total : forall sub hasm chk fresh t1 t2, subclasscheck sub hasm chk fresh t1 t2 <> None.
+Proof. exact subclasscheck_total. Qed.
+Print Assumptions C13_total.
 
 Theorem C13_refl : forall sub hasm chk fresh n t, subck sub hasm chk fresh (S n) t t = Some true.
 Proof. exact subck_refl. Qed.
